@@ -211,6 +211,17 @@ def chk_coords(case, acc, seed):
     on = mask != 0
     if abs(np.max(rho[on]) - 1) > 1e-12:
         acc.violation('coords:rho-max', case, f'max rho over the mask = {np.max(rho[on])}')
+    # the memory layout of the mask is not part of it: Fortran-ordered and transposed-view masks give the same coordinates
+    # and modes (w9-C11-1)
+    try:
+        for lname, lay in (('fortran', np.asfortranarray(mask)), ('view', np.ascontiguousarray(mask.T).T)):
+            rho_l, th_l = lentil.zernike_coordinates(lay)
+            z_l = np.asarray(lentil.zernike(lay, 3), dtype=float)
+            z_c = np.asarray(lentil.zernike(mask, 3), dtype=float)
+            if rm.maxerr(np.asarray(rho_l), np.asarray(rho)) > 1e-12 or rm.maxerr(z_l, z_c) > 1e-12:
+                acc.violation(f'coords:depends-on-memory-layout:{lname}', case, 'coordinates / modes of a mask differ between C order and another memory layout of the same array')
+    except Exception as e:
+        acc.violation(f'coords:layout:raises:{type(e).__name__}', case, repr(e))
     # through the public mode evaluation: tilt modes are linear about the centroid, modes vanish outside the mask,
     # and only the support of the mask matters
     ref_mask = (mask != 0).astype(float)
